@@ -138,6 +138,44 @@ theorem C09_value_pull_eventually_latest {α : Type} (E : Option α → α → B
     · rw [hlast, hh] at h1
       simpa using h1
 
+/-- With backpressure (no lossy stage; `BCfg`): for any message type and EVERY interleaving of write
+attempts and receives, nothing is dropped or reordered — what the consumer received followed by the
+event in the forwarder's hand is exactly the sequence of writes that went through; a write goes through
+iff the forwarder holds nothing (writers wait for delivery, and only then); and while the subscriber
+keeps receiving (a receive after every write) every write goes through and is delivered. -/
+theorem C09_backpressure_lossless {α : Type} (ms : List (BMove α)) (es : List α) :
+    (let c := brun BCfg.init ms
+     c.delivered ++ c.inHand.toList = c.accepted ∧
+     ∀ e, (bstep c (.offer e)).accepted = (if c.inHand.isNone then c.accepted ++ [e] else c.accepted)) ∧
+    (brun BCfg.init (es.flatMap (fun e => [BMove.offer e, BMove.deliver]))).delivered = es := by
+  have inv : ∀ (ms : List (BMove α)) (c : BCfg α), c.delivered ++ c.inHand.toList = c.accepted →
+      (brun c ms).delivered ++ (brun c ms).inHand.toList = (brun c ms).accepted := by
+    intro ms
+    induction ms with
+    | nil => intro c h; exact h
+    | cons m ms ih =>
+      intro c h
+      apply ih
+      rcases c with ⟨hand, del, acc⟩
+      cases m with
+      | offer e => cases hand <;> simp_all [bstep]
+      | deliver => cases hand <;> simp_all [bstep]
+  refine ⟨⟨inv ms BCfg.init (by simp [BCfg.init]), ?_⟩, ?_⟩
+  · intro e
+    cases h : (brun BCfg.init ms).inHand <;> simp [bstep, h]
+  · have keep : ∀ (es : List α) (c : BCfg α), c.inHand = none →
+        (brun c (es.flatMap (fun e => [BMove.offer e, BMove.deliver]))).delivered = c.delivered ++ es := by
+      intro es
+      induction es with
+      | nil => intro c _; simp [brun]
+      | cons e es ih =>
+        intro c hc
+        simp only [List.flatMap_cons, List.cons_append, List.nil_append]
+        show (brun (bstep (bstep c (.offer e)) .deliver) _).delivered = _
+        rw [ih _ (by simp [bstep, hc])]
+        simp [bstep, hc]
+    simpa [BCfg.init] using keep es BCfg.init rfl
+
 /-! ### non-vacuity -/
 
 section examples
@@ -190,6 +228,12 @@ example :
       (vrunF (fun l v => match l with | some a => a % 2 == v % 2 | none => false) id (VCfg.subscribed id (some 1))
         [.deliver, .recv 2, .take, .recv 3, .deliver, .take, .deliver])
       = ([1, 2, 3], none, none) := by decide
+
+/-- backpressure: the second write is attempted while the first is still in hand and has to wait; it goes
+through after the receive -/
+example :
+    (fun c : BCfg Nat => (c.delivered, c.inHand, c.accepted))
+      (brun BCfg.init [.offer 1, .offer 2, .deliver, .offer 2, .deliver]) = ([1, 2], none, [1, 2]) := by decide
 
 end examples
 
